@@ -3,7 +3,7 @@
     (printed by [Check]).  [holds s c a m]: connection c is subscribed to mailbox
     (a, m) (it is bound to app a and its handle is m). *)
 From MW Require Import Base Store Monad Usage Server Websocket Service Findings Inv Obs
-     ProtoFacts StepFacts MbFactsA LifeFacts Inst_Params CrashLife.
+     ProtoFacts StepFacts MbFactsA LifeFacts Inst_Params CrashLife DeliveryFacts.
 Local Open Scope list_scope.
 
 (** in every well-formed state: an `add` on a connection holding (a, m) is stored
@@ -63,6 +63,47 @@ Print Assumptions C02_subscription_ends_only_by_all.
 Theorem C02_crash_holds_nothing : ltac:(let t := type of crash_holds_nothing in exact t).
 Proof. exact crash_holds_nothing. Qed.
 Print Assumptions C02_crash_holds_nothing.
+
+
+(** ** exactly once, over histories (DeliveryFacts.v): every message frame of every event (crashes included) is
+    either part of the replay of the receiver's own served open, or the broadcast of the one row an add of that
+    event stores, to a connection holding that mailbox ([message_frame_origin]); the [inbox] of a connection --
+    ALL message frames it is sent as messages of (a, m) along a run -- over one continuous subscription equals
+    the replay at its open followed by the rows added during the subscription, each exactly once
+    ([delivered_once], as list equality; [delivered_is_stored] / [delivered_once_ledger]: equal, with equal
+    multiplicities, to what is stored / to the ledger); a connection that does not hold (a, m) is sent no
+    message of it except the replay of its own open ([not_subscribed_silent], [inbox_step_outsider]) *)
+Theorem C02_message_frame_origin : ltac:(let t := type of message_frame_origin in exact t).
+Proof. exact message_frame_origin. Qed.
+Check C02_message_frame_origin.
+Print Assumptions C02_message_frame_origin.
+
+Theorem C02_delivered_once : ltac:(let t := type of delivered_once in exact t).
+Proof. exact delivered_once. Qed.
+Check C02_delivered_once.
+Print Assumptions C02_delivered_once.
+
+Theorem C02_delivered_is_stored : ltac:(let t := type of delivered_is_stored in exact t).
+Proof. exact delivered_is_stored. Qed.
+Check C02_delivered_is_stored.
+Print Assumptions C02_delivered_is_stored.
+
+Theorem C02_delivered_once_ledger : ltac:(let t := type of delivered_once_ledger in exact t).
+Proof. exact delivered_once_ledger. Qed.
+Check C02_delivered_once_ledger.
+Print Assumptions C02_delivered_once_ledger.
+
+Theorem C02_not_subscribed_silent : ltac:(let t := type of not_subscribed_silent in exact t).
+Proof. exact not_subscribed_silent. Qed.
+Check C02_not_subscribed_silent.
+Print Assumptions C02_not_subscribed_silent.
+
+Theorem C02_msg_frames_run_accounted : ltac:(let t := type of msg_frames_run_accounted in exact t).
+Proof. exact msg_frames_run_accounted. Qed.
+Print Assumptions C02_msg_frames_run_accounted.
+
+Example C02_delivery_nonvacuous : ltac:(let t := type of delivery_nonvacuous in exact t).
+Proof. exact delivery_nonvacuous. Qed.
 
 
 Example C02_nonvacuous :
